@@ -1,6 +1,6 @@
 (* Correspondence for C10: a case is the configuration (phase outcomes) and the call log recorded
    from the real srv.Service; the model must accept the log. *)
-From FunV Require Import Base.Tac Model.ServiceModel.
+From FunV Require Import Base.Tac Model.ServiceModel Model.ServiceAccept.
 
 Inductive case := MkCase (id : Z) (c : cfg) (log : list ev).
 
